@@ -311,3 +311,43 @@ def check_identity_keys(ix, rep, rule='R-STORE'):
         else:
             rep.ok(rule, nc.module.rel, nc.name, 'identity-key', 'no class on the MRO overrides equality or hashing', nc.node.lineno)
     return n
+
+
+def check_spec_forest_writers(ix, rep, rule='R-STORE'):
+    """`ast.specs` is the forest every consumer walks: evaluate() returns its last entry, reset() resets every entry, and pastify() binds each
+    assertion name to the rewrite of the entry it was registered with.  Who may write it: the constructor (empty list), visitAssertion (append,
+    one per assertion, in text order) and pastify() (the list of rewritten entries).  Anything else -- a remove() when a sub-specification is
+    referenced, an insert at another position, a sort -- changes what the names and the output stand for."""
+    n = 0
+    allowed = {('__init__', 'assign'), ('visitAssertion', 'append'), ('pastify', 'assign'), ('parse', 'assign'), ('reset', 'assign')}
+    for mod in sorted(ix.modules.values(), key=lambda m: m.rel):
+        if '/antlr/' in mod.rel or ix.unimportable(mod):
+            continue
+        for fn in ast.walk(mod.tree):
+            if not isinstance(fn, ast.FunctionDef):
+                continue
+            for x in ast.walk(fn):
+                kind = where = None
+                if isinstance(x, ast.Assign) and any(isinstance(t, ast.Attribute) and t.attr == 'specs' for t in x.targets):
+                    kind, where = 'assign', x
+                elif isinstance(x, (ast.AugAssign,)) and isinstance(x.target, ast.Attribute) and x.target.attr == 'specs':
+                    kind, where = 'augassign', x
+                elif isinstance(x, ast.Call) and isinstance(x.func, ast.Attribute) and isinstance(x.func.value, ast.Attribute) and x.func.value.attr == 'specs' \
+                        and x.func.attr in ('append', 'remove', 'pop', 'insert', 'clear', 'sort', 'reverse', 'extend', '__setitem__', '__delitem__'):
+                    kind, where = x.func.attr, x
+                elif isinstance(x, (ast.Delete,)) and any(isinstance(t, ast.Subscript) and isinstance(t.value, ast.Attribute) and t.value.attr == 'specs' for t in x.targets):
+                    kind, where = 'del', x
+                elif isinstance(x, ast.Assign) and any(isinstance(t, ast.Subscript) and isinstance(t.value, ast.Attribute) and t.value.attr == 'specs' for t in x.targets):
+                    kind, where = 'item-assign', x
+                if kind is None:
+                    continue
+                n += 1
+                rep.unit(mod.rel)
+                slot = 'specs:%s:%s' % (fn.name, kind)
+                if (fn.name, kind) in allowed:
+                    rep.ok(rule, mod.rel, fn.name, slot, 'the spec forest is written where it is built', where.lineno)
+                else:
+                    rep.fail(rule, mod.rel, fn.name, slot, '`%s` in %s() changes ast.specs outside the places that build it (constructor, visitAssertion append, pastify): the entries are what '
+                             'evaluate() returns the last of, what reset() walks and what pastify() binds the assertion names to -- a sub-specification taken out of the forest is '
+                             'pastified only as part of its referrer, and get_value() of its name returns the delayed copy' % (ast.unparse(where)[:60], fn.name), where.lineno)
+    return n
